@@ -32,6 +32,7 @@ import (
 type Config struct {
 	IntBits       int  // 64 or 32
 	AssumeLenI32  bool // len of any slice/string ≤ 2^31-1
+	Ideal         bool // treat +,-,conversions as mathematical integers (for equivalence of layouts, not for safety)
 	UsedSummaries map[string]bool
 }
 
@@ -282,6 +283,9 @@ func constBig(c *ssa.Const) (*big.Int, bool) {
 
 // inRange: do the facts entail lo ≤ t ≤ hi of type typ?
 func (e *Env) inRange(t lin.Term, typ types.Type) bool {
+	if e.p.Cfg.Ideal {
+		return true
+	}
 	lo, hi, ok := intRange(typ, e.p.Cfg.IntBits)
 	if !ok {
 		return false
